@@ -24,7 +24,7 @@ DOCS = {
     "goProxy": ("file:///w/go.mod", "module x\n\nrequire golang.org/x/text v0.1.0\n", "go_proxy", "golang.org/x/text", 2, 28),
     "github": ("file:///w/.github/workflows/ci.yml", "jobs:\n  b:\n    steps:\n      - uses: actions/checkout@v3\n", "github_actions", "actions/checkout", 3, 31),
     "pnpmCatalog": ("file:///w/pnpm-workspace.yaml", "catalog:\n  react: 17.0.0\n", "pnpm_catalog", "react", 1, 10),
-    "jsr": ("file:///w/deno.json", '{\n  "imports": {\n    "@std/path": "jsr:@std/path@0.9.0"\n  }\n}', "jsr", "@std/path", 2, 20),
+    "jsr": ("file:///w/deno.json", '{\n  "imports": {\n    "@std/path": "jsr:@std/path@0.9.0"\n  }\n}', "jsr", "@std/path", 2, 33),
 }
 ECO = {"npm": "npm", "crates": "crates", "goProxy": "go", "github": "gha", "pnpmCatalog": "pnpm", "jsr": "jsr"}
 VERS = {"npm": ["4.17.20", "4.18.0"], "crates": ["1.0.0", "1.1.0"], "goProxy": ["v0.1.0", "v0.2.0"], "github": ["v3", "v4"],
